@@ -170,10 +170,15 @@ def _size(shape):
     return n
 
 
+import itertools as _it
+_REPLAY_COUNTER = _it.count()
+
+
 def _replay_file(prop, name, params, inputs, label, seed):
     os.makedirs(os.path.join(VERIF, 'replays'), exist_ok=True)
     spec = {'property': prop, 'scenario': name, 'params': params, 'inputs': inputs, 'label': label, 'seed': seed}
-    h = hashlib.sha1(json.dumps(spec, sort_keys=True).encode()).hexdigest()[:12]
+    # unique per writer: two tasks with identical parameters (duplicate grid points) must not share -- and delete -- one file
+    h = hashlib.sha1((json.dumps(spec, sort_keys=True) + '|%d|%d' % (os.getpid(), next(_REPLAY_COUNTER))).encode()).hexdigest()[:12]
     path = os.path.join(VERIF, 'replays', '%s-%s-%s.json' % (prop, name, h))
     with open(path, 'w') as f:
         json.dump(spec, f, indent=1)
